@@ -142,3 +142,31 @@ def ord2(ctx: Ctx, K=None):
             if t[0] == "cmp" and t[1] == "In" and t[2][0] == "const" and isinstance(t[2][1], str) and t[2][1].startswith(".") and t[2][1] != ".":
                 ctx.instance(rule)
                 ctx.ob(rule, q, show(t)[:60], False, f"the dot test looks for {t[2][1]!r} instead of '.'", where(fi, e.node))
+
+
+def flag_accumulates(ctx: Ctx):
+    """A loop-carried flag that later decides whether dot segments are removed must accumulate over every iteration
+    (`flag |= c`, `flag = flag or c`): a plain assignment keeps only the last iteration's verdict (with reversed(paths),
+    that of the *first* argument), so joinpath('a', '..') would skip the normalisation that joinpath('a').joinpath('..') does."""
+    model = ctx.model
+    rule = "FLAG-ACC"
+    ctx.rule(rule, floor=1, what="a dot-detection flag accumulates over all path arguments")
+    n = 0
+    for q in ENTRY:
+        fi = model.func(q)
+        r = analyze(model, fi)
+        for (lid, name), srcs in r.phis.items():
+            phi = ("phi", lid, name)
+            dot_srcs = [t for t in srcs if any(x[0] == "cmp" and x[1] == "In" and x[2] == ("const", ".") for x in walk(t))]
+            if not dot_srcs:
+                continue
+            n += 1
+            ctx.instance(rule)
+            ok = all(any(x == phi for x in walk(t)) and t[0] == "binop" and t[1] in ("BitOr", "Or", "Add") or
+                     (t[0] == "binop" and t[1] == "BitOr" and any(x == phi for x in walk(t))) for t in dot_srcs)
+            # also accepted: `flag = flag or c` (the short-circuit leaves the phi as one source and c as the other under `not flag`)
+            ctx.ob(rule, q, f"{name} <- " + " | ".join(sorted(show(t)[:50] for t in dot_srcs)), ok,
+                   f"the flag `{name}` is overwritten in the loop instead of accumulated: only one argument's dots are seen",
+                   where(fi, r.loops[lid]), sample="flag |= ('.' in segment)")
+    if not n:
+        raise AnalysisError("FLAG-ACC: no loop-carried dot-detection flag found (anchor vanished)")
